@@ -21,7 +21,7 @@ def tasks(tier):
     for pol in ("DualNorm", "ObjectiveFilter") if q else twin.loop.POLICIES:
         for cons in ([], ["eq0"]) if (pol == "DualNorm" or not q) else ([],):
             for level in ("DEBUG", "INFO") if pol == "DualNorm" else ("DEBUG",):
-                t.append(dict(module="twin", fn="h_observe", shape=dict(K=(1 if q and cons else (2 if pol in twin.loop.HEAVY and cons else K)), policy=pol, vars=["boxed"], cons=cons, level=level), opts=o))
+                t.append(dict(module="twin", fn="h_observe", shape=dict(K=(1 if q and cons else (2 if cons else K)), policy=pol, vars=["boxed"], cons=cons, level=level), opts=o))
     # rows with slack variables: the collected path lives in the internal space, the result in the user's
     for cons in (["ge"], ["ranged"]):
         t.append(dict(module="twin", fn="h_observe", shape=dict(K=1, policy="DualNorm", vars=["boxed"], cons=cons, level="INFO"), opts=o))
